@@ -27,7 +27,6 @@ ROOT = os.path.dirname(os.path.dirname(os.path.abspath(__file__)))
 REPO = os.environ.get("VERIF_REPO", "/repo")
 LEAN = os.path.join(ROOT, "lean")
 OVERLAY = os.path.join(ROOT, "harness", "overlay")
-ORACLE = os.path.join(LEAN, ".lake", "build", "bin", "oracle")
 ALLOWED_AXIOMS = {"propext", "Classical.choice", "Quot.sound"}
 GO_ENV = {
     "GOTOOLCHAIN": "go1.26.8",
@@ -64,6 +63,7 @@ class Ctx:
         self.stats = {}
         self.lean_ok = None
         self.findings = load_findings(prop)
+        self.oracle_name = None   # defaults to the property's own oracle executable
 
     def replay_line_file(self):
         """--replay <file>: a replay JSON written by finish() (field "case") or a raw line file.
@@ -98,10 +98,12 @@ class Ctx:
             log(p.stdout[-4000:])
         return ok, p.stdout
 
-    def lean_check(self, modules, theorems, extra_targets=("oracle",)):
+    def lean_check(self, modules, theorems, extra_targets=None):
         """Kernel-check `modules`, audit axioms of `theorems` (fully qualified names).
         Records obligations/discharged. Returns True iff everything is discharged."""
         self.obligations = list(theorems)
+        if extra_targets is None:
+            extra_targets = ["oracle-" + (self.oracle_name or self.prop).lower()]
         ok, out = self.lake_build(list(modules) + list(extra_targets))
         self.lean_ok = ok
         if not ok:
@@ -156,9 +158,12 @@ class Ctx:
             self.lean_ok = False
         return ok
 
+    def oracle_bin(self):
+        return os.path.join(LEAN, ".lake", "build", "bin", "oracle-" + (self.oracle_name or self.prop).lower())
+
     def oracle(self, ops_path, out_path):
         with open(ops_path, "rb") as fin, open(out_path, "wb") as fout:
-            p = subprocess.run([ORACLE], stdin=fin, stdout=fout, stderr=subprocess.PIPE)
+            p = subprocess.run([self.oracle_bin()], stdin=fin, stdout=fout, stderr=subprocess.PIPE)
         if p.returncode != 0:
             raise RuntimeError("oracle failed: " + p.stderr.decode()[-2000:])
 
